@@ -14,6 +14,7 @@ package quic
 // cannot be taken is held by the caller.
 
 import (
+	"runtime"
 	"context"
 	"fmt"
 	"io"
@@ -223,18 +224,20 @@ func runC17Contract(sc c17ContractScript) (*c17Contract, string) {
 			done := make(chan struct{})
 			go func() { defer close(done); ss.Write(data) }()
 			var all []ackhandler.StreamFrame
-			for k := 0; k < 200000; k++ {
+			// keep popping until the writer has returned, however the two goroutines are scheduled
+			for finished := false; !finished; {
 				select {
 				case <-done:
-					k = 1 << 30
+					finished = true
 				default:
 				}
 				f, _, _ := ss.popStreamFrame(protocol.ByteCount(min(max(sc.Chunk, 30), 1200)), protocol.Version1)
 				if f.Frame != nil {
 					all = append(all, f)
+				} else if !finished {
+					runtime.Gosched()
 				}
 			}
-			<-done
 			for _, f := range all {
 				f.Handler.OnAcked(f.Frame)
 			}
